@@ -38,7 +38,11 @@ def main():
         i = args.index('--tier')
         tier = args[i + 1]
         del args[i:i + 2]
-    ids = args or sorted(d for d in os.listdir(f'{ROOT}/seeded') if os.path.isdir(f'{ROOT}/seeded/{d}') and not d.startswith('_'))
+    if args == ['--summary-only']:
+        write_summary(sh('git -C /repo rev-parse --short HEAD').stdout.strip(), tier)
+        return
+    ids = args or sorted(d for d in os.listdir(f'{ROOT}/seeded') if os.path.isdir(f'{ROOT}/seeded/{d}') and not d.startswith('_')
+                         and d != 'mutation')
     head = sh('git -C /repo rev-parse --short HEAD').stdout.strip()
     rows = []
     os.makedirs('/tmp/mt', exist_ok=True)
@@ -77,19 +81,30 @@ def main():
         finally:
             sh(f'git -C /repo worktree remove --force {wt}')
             shutil.rmtree(wt, ignore_errors=True)
-    if not args:
-        with open(f'{ROOT}/seeded/SUMMARY.md', 'w') as f:
-            f.write(f'# Seeded changes vs checks (repo HEAD {head}, tier {tier})\n\n')
-            f.write('| seeded change | breaks | needs to manifest | detected by (exit 1 = VIOLATION) |\n|---|---|---|---|\n')
-            for sid, prop, meta, res in rows:
-                if res['applies']:
-                    det = ', '.join(f"{c}: exit {v['exit']}" for c, v in res['checks'].items())
-                else:
-                    old = meta.get('detected_by') or {}
-                    det = 'patch no longer applies at HEAD; at ' + str(meta.get('confirmed_at_repo_commit')) + ': ' + \
-                          ', '.join(f"{c}: exit {v['exit']}" for c, v in old.items())
-                needs = (meta.get('needs_to_manifest') or '').replace('\n', ' ').replace('|', '/')[:160]
-                f.write(f'| {sid} | {prop} | {needs} | {det} |\n')
+    write_summary(head, tier)
+
+
+def write_summary(head, tier):
+    """SUMMARY.md from the 'detected_at_head' records of every seeded/<id>/meta.json (whenever they were made)"""
+    ids = sorted(d for d in os.listdir(f'{ROOT}/seeded') if os.path.isdir(f'{ROOT}/seeded/{d}') and not d.startswith('_')
+                 and d != 'mutation')
+    with open(f'{ROOT}/seeded/SUMMARY.md', 'w') as f:
+        f.write(f'# Seeded changes vs checks ({tier} tier; repo HEAD of each run in the last column)\n\n')
+        f.write('| seeded change | breaks | needs to manifest | detected by (exit 1 = VIOLATION) | at |\n|---|---|---|---|---|\n')
+        for sid in ids:
+            meta = json.load(open(f'{ROOT}/seeded/{sid}/meta.json'))
+            res = meta.get('detected_at_head')
+            prop = meta['breaks_property']
+            if res and res.get('applies'):
+                det = ', '.join(f"{c}: exit {v['exit']}" for c, v in res['checks'].items())
+                at = res.get('repo_head')
+            else:
+                old = meta.get('detected_by') or {}
+                det = ('patch no longer applies at HEAD; ' if res else '') + 'when confirmed: ' + \
+                    ', '.join(f"{c}: exit {v['exit']}" for c, v in old.items())
+                at = meta.get('confirmed_at_repo_commit')
+            needs = (meta.get('needs_to_manifest') or '').replace('\n', ' ').replace('|', '/')[:160]
+            f.write(f'| {sid} | {prop} | {needs} | {det} | {at} |\n')
 
 
 if __name__ == '__main__':
